@@ -16,6 +16,48 @@ Hypothesis Hplus : exists i, sc_spindex_opname T "+" = Some (i, "+").
 Hypothesis Hminus : exists i, sc_spindex_opname T "-" = Some (i, "-").
 
 (* ================================================================== Part E: constructors during the pass *)
+(* ---- facts local to one unit that the emitted definition needs (class name literal, one output) and the
+   control array, which the optimiser never touches *)
+Definition arith_cls (c : string) : bool :=
+  existsb (String.eqb c) ["BinaryOpUGen"; "UnaryOpUGen"; "MulAdd"; "Sum3"; "Sum4"].
+
+Lemma controls_put_unit : forall s U, controls (put_unit s U) = controls s. Proof. reflexivity. Qed.
+Lemma controls_put_set : forall s r l, controls (put_set s r l) = controls s. Proof. reflexivity. Qed.
+Lemma controls_set_child : forall s i v, controls (set_child s i v) = controls s.
+Proof. intros. unfold set_child. destruct (_ || _); reflexivity. Qed.
+Lemma controls_remove_ugen : forall s u, controls (remove_ugen s u) = controls s.
+Proof. intros. unfold remove_ugen. destruct (get_unit s u); auto. apply controls_set_child. Qed.
+Lemma controls_udl : forall l s self repl deleted, controls (update_desc_loop s self repl deleted l) = controls s.
+Proof.
+  induction l as [|i t IH]; intros s self repl deleted; simpl; auto.
+  destruct i as [q|u ch]; auto. destruct (get_unit s u) as [V|]; auto.
+  destruct (isugen V); auto. destruct (dref V); auto. rewrite IH. reflexivity.
+Qed.
+Lemma controls_replace_ugen : forall s a b s', replace_ugen s a b = Ok s' -> controls s' = controls s.
+Proof.
+  intros s a b s' H. unfold replace_ugen in H.
+  destruct (get_unit s a) as [UA|]; [|discriminate]. destruct (get_unit s b) as [UB|]; [|discriminate].
+  injection H as <-.
+  match goal with |- controls (fold_left ?f ?l ?s0) = _ =>
+    assert (G : forall l0 s1, controls (fold_left f l0 s1) = controls s1) end.
+  { induction l0 as [|c t IH]; intro s1; simpl; auto. rewrite IH. destruct (get_unit s1 c); reflexivity. }
+  rewrite G, controls_set_child. reflexivity.
+Qed.
+Lemma controls_absorb : forall s self UA mk s3 r,
+  absorb s self UA mk = Ok (s3, r) ->
+  (forall s2 rv, mk (remove_ugen s (uid UA)) = Ok (s2, rv) -> controls s2 = controls (remove_ugen s (uid UA))) ->
+  controls s3 = controls s.
+Proof.
+  intros s self UA mk s3 r H Hmk. unfold absorb in H.
+  destruct (mk (remove_ugen s (uid UA))) as [[s2 rv]|e] eqn:E; cbn [bind] in H; [|discriminate].
+  pose proof (Hmk s2 rv eq_refl) as H2. unfold adopt in H.
+  destruct rv as [q|r0 c0]; [discriminate|]. destruct (get_unit s2 r0) as [R|]; [|discriminate].
+  destruct (multi R); [discriminate|]. cbn [bind] in H. injection H as <- _.
+  unfold update_desc. destruct (get_unit _ r0).
+  - rewrite controls_udl, controls_put_unit, H2. apply controls_remove_ugen.
+  - rewrite controls_put_unit, H2. apply controls_remove_ugen.
+Qed.
+
 Record MkShape (s1 s2 : st) (rv : inp) (R : unit) (L : list inp) : Prop := mkShape {
   SH_rv : rv = O (List.length (units s1)) 0;
   SH_units : units s2 = units s1 ++ [R];
@@ -26,10 +68,16 @@ Record MkShape (s1 s2 : st) (rv : inp) (R : unit) (L : list inp) : Prop := mkSha
   SH_dref : dref R = None;
   SH_tracked : tracked R = true;
   SH_ok : unit_ok R = true;
-  SH_perm : Permutation (ins R) L
+  SH_perm : Permutation (ins R) L;
+  SH_controls : controls s2 = controls s1;
+  SH_cls : arith_cls (cls R) = true;
+  SH_nouts : nouts R = 1
 }.
 Lemma SH_ins : forall s1 s2 rv R L, MkShape s1 s2 rv R L -> forall i, In i (ins R) <-> In i L.
 Proof. intros s1 s2 rv R L [] i. split; intro H; [eapply Permutation_in; eauto | eapply Permutation_in; [symmetry|]; eauto]. Qed.
+
+Lemma create_rw_controls : forall s mk s2 u, rewriting s = true -> create s mk false = (s2, u) -> controls s2 = controls s.
+Proof. intros s mk s2 u Hrw H. unfold create in H. rewrite Hrw in H. injection H as <- _. reflexivity. Qed.
 
 Lemma create_rw : forall s mk s2 u, rewriting s = true -> create s mk false = (s2, u) ->
   u = List.length (units s) /\ units s2 = units s ++ [mk u None (-1)%Z] /\
@@ -47,6 +95,7 @@ Proof.
   intros s1 name a b Hrw [i Hi] Hn Ha Hb. unfold new_bin_unit. rewrite Hi.
   destruct (create s1 _ false) as [s2 u] eqn:Ec.
   destruct (create_rw _ _ _ _ Hrw Ec) as (Hu & HU & HC & HS & HR).
+  pose proof (create_rw_controls _ _ _ _ Hrw Ec) as HCt.
   match type of HU with _ = _ ++ [?R] => exists s2, (O u 0), R end. split; [reflexivity|]. split; [|split; [|split]; reflexivity].
   constructor; simpl; auto; try congruence.
   unfold unit_ok, tracked; simpl. destruct Hn as [-> | ->]; simpl; rewrite Ha, Hb; reflexivity.
@@ -86,6 +135,7 @@ Proof.
   rewrite Ha, Hb, Hc.
   destruct (create s1 _ false) as [s2 u] eqn:Ec.
   destruct (create_rw _ _ _ _ Hrw Ec) as (Hu & HU & HC & HS & HR).
+  pose proof (create_rw_controls _ _ _ _ Hrw Ec) as HCt.
   match type of HU with _ = _ ++ [?R] => exists s2, (O u 0), R end. split; [reflexivity|]. split; [|reflexivity].
   constructor; simpl; auto; try congruence.
   - unfold unit_ok, tracked; simpl. rewrite sort_by_length. simpl.
@@ -101,6 +151,7 @@ Proof.
   apply negb_true_iff in Hd. rewrite Ha, Hb, Hc, Hd.
   destruct (create s1 _ false) as [s2 u] eqn:Ec.
   destruct (create_rw _ _ _ _ Hrw Ec) as (Hu & HU & HC & HS & HR).
+  pose proof (create_rw_controls _ _ _ _ Hrw Ec) as HCt.
   match type of HU with _ = _ ++ [?R] => exists s2, (O u 0), R end. split; [reflexivity|]. split; [|reflexivity].
   constructor; simpl; auto; try congruence.
   - unfold unit_ok, tracked; simpl. rewrite sort_by_length. reflexivity.
@@ -115,6 +166,7 @@ Proof.
   intros s1 i m a Hrw H0 H1 Hm1 Ha Hcan. unfold ctor_muladd. rewrite H0, H1, Hm1, Ha. simpl. rewrite Hcan.
   destruct (create s1 _ false) as [s2 u] eqn:Ec.
   destruct (create_rw _ _ _ _ Hrw Ec) as (Hu & HU & HC & HS & HR).
+  pose proof (create_rw_controls _ _ _ _ Hrw Ec) as HCt.
   match type of HU with _ = _ ++ [?R] => exists s2, (O u 0), R end. split; [reflexivity|]. split; [|split; reflexivity].
   constructor; simpl; auto; try congruence.
 Qed.
@@ -212,6 +264,7 @@ Inductive RwStep (s : st) (D : list nat) (self : nat) (Self : unit) (s' : st) : 
     (forall v ch, In (O v ch) (ins Self) -> v <> a -> In (O v ch) (ins R)) ->
     RwViews s self a (List.length (units s)) Self UA R s' ->
     RCase Self UA R ->
+    arith_cls (cls R) = true -> nouts R = 1 -> controls s' = controls s ->
     RwStep s D self Self s'.
 
 Lemma RwStep_inv : forall s D self Self s', Inv s D -> get_unit s self = Some Self -> liv s self -> ~ In self D ->
@@ -272,6 +325,9 @@ Proof.
   { constructor; try assumption; rewrite ?Hu1; auto. }
   destruct (absorb_replace_views s D self Self UA mk s2 rv R HI HS Ls Ns HA La Na Hne Hmk MK Hnoself) as (s3 & s' & A1 & A2 & RV).
   exists s3, s'. split; auto. split; auto.
+  assert (Hctl : controls s' = controls s).
+  { rewrite (controls_replace_ugen _ _ _ _ A2). apply (controls_absorb s Self UA mk s3 _ A1).
+    intros s2' rv' E'. fold a in E'. rewrite Hmk in E'. injection E' as <- _. exact SH_controls0. }
   assert (RS : RwStep s D self Self s') by (apply (mkRwStep s D self Self s' a UA R); auto).
   split; auto. exact (RwStep_inv s D self Self s' HI HS Ls Ns TS RS).
 Qed.
